@@ -430,9 +430,12 @@ type runner struct {
 	// fault is the active storage fault; window is set from its injection
 	// until a configuration is known to have been applied with all files
 	// intact.
-	fault       *listFault
-	window      bool
-	acceptedKey string
+	fault  *listFault
+	window bool
+	// lastChangeIntact: the latest admin call was made while no list file was
+	// faulty (only such a change is known to have been applied in full).
+	lastChangeIntact bool
+	acceptedKey      string
 	// abandon: a concurrent phase ended in a deadlock; the parked tasks hold the
 	// node's locks.
 	abandon bool
@@ -478,6 +481,7 @@ func (r *runner) sleep(d time.Duration) {
 }
 
 func (r *runner) api(method, path string, body any) error {
+	r.lastChangeIntact = r.fault == nil
 	b, _ := json.Marshal(body)
 	code, resp, err := r.n.Mux.Do(method, path, b)
 	if err != nil {
@@ -496,6 +500,7 @@ func (r *runner) api(method, path string, body any) error {
 // storage fault is in doubt the answer of the API says whether the operation
 // was accepted (applied=false: refused, nothing changed).
 func (r *runner) apiMay(method, path string, body any) (applied bool, err error) {
+	r.lastChangeIntact = r.fault == nil
 	b, _ := json.Marshal(body)
 	code, resp, err := r.n.Mux.Do(method, path, b)
 	if err != nil {
@@ -975,7 +980,7 @@ func Run(t *testing.T, scAny any, c *kernel.Ctx) error {
 var Prop = &kernel.Property{
 	ID:    "C02",
 	Level: "exploration",
-	Rule: "seeded cases (rapid): a zone of upstream answer sections (CNAME chains 0-3, 0-3 A/AAAA, HTTPS records with ipv4hint/ipv6hint, unrelated TXT/MX/NS, randomly permuted) served by the simulated upstream; rules over CNAME targets, IP literals and query names in custom rules, a block list and an allow list (||, |, @@, $important, $dnstype, $client, hosts-style); queries of 4 types over 6 transports from 3 sources interleaved with live set_rules / protection on, off and timed pause / blocking-mode / AAAA-disabled changes and clock movements (fixed steps; to just before, exactly at and past the deadline of the running pause); storage faults on the file of the block list or of the allow list in the data directory (replaced by a symlink loop, a directory or a dangling link, healed later) between rule changes, answers then being judged by what every configuration that may be in force agrees on; in half of the cases the filtering module's updates loop is scheduled by the harness, with phases in which a set_rules call, the updates loop and 2-5 queries run as concurrent tasks interleaved at lock boundaries by a seeded cooperative scheduler, each answer judged by what the configurations before and after the call agree on, and every rule-changing admin call (set_rules, set_url switching the block list or the allow list on or off, filtering/config switching the global filtering flag) may be held, alone or in bursts of 2-4: the updates loop then runs only after the following calls have been issued, before the next query, which is judged by the configuration accepted last; " +
+	Rule: "seeded cases (rapid): a zone of upstream answer sections (CNAME chains 0-3, 0-3 A/AAAA, HTTPS records with ipv4hint/ipv6hint, unrelated TXT/MX/NS, randomly permuted) served by the simulated upstream; rules over CNAME targets, IP literals and query names in custom rules, a block list and an allow list (||, |, @@, $important, $dnstype, $client, hosts-style); queries of 4 types over 6 transports from 3 sources interleaved with live set_rules / protection on, off and timed pause / blocking-mode / AAAA-disabled changes and clock movements (fixed steps; to just before, exactly at and past the deadline of the running pause); storage faults on the file of the block list or of the allow list in the data directory (replaced by a symlink loop, a directory or a dangling link, healed later) between rule changes, answers then being judged by what every configuration that may be in force agrees on; in half of the cases the filtering module's updates loop is scheduled by the harness, with phases in which a set_rules call, the updates loop and 2-5 queries run as concurrent tasks interleaved at lock boundaries by a seeded cooperative scheduler, each answer judged by what the configurations before and after the call agree on (such phases also without the set_rules call, in every scenario, and often first thing after the clock has crossed the deadline of a pause: the goroutine a request starts to switch protection on again is then a task of the phase, and every one of the queries is judged with protection on), and every rule-changing admin call (set_rules, set_url switching the block list or the allow list on or off, filtering/config switching the global filtering flag) may be held, alone or in bursts of 2-4: the updates loop then runs only after the following calls have been issued, before the next query, which is judged by the configuration accepted last; " +
 		"non-trivial = the reference model found at least one answer that must be replaced AND one that must be delivered unchanged; distinct = distinct scenario digests",
 	Gen: Gen,
 	New: func() any { return &Scenario{} },
@@ -986,6 +991,6 @@ var Prop = &kernel.Property{
 	Real:        []string{"internal/dnsforward (pipeline, filterDNSResponse, HTTPS hint filtering, blocking-mode responses)", "internal/filtering (CheckHostRules, engines)", "dnsproxy request path incl. cache", "internal/client.Storage", "urlfilter"},
 	Stub:        []string{"upstream resolver (answer sections from the scenario's zone)", "client sockets", "query log / statistics (recorders)", "wall clock (synctest)"},
 	Assumptions: []string{"urlfilter's matching of one rule set against one host name / IP literal is trusted", "CNAME targets are matched as type CNAME, addresses as A/AAAA, hints as HTTPS for $dnstype purposes (documented behaviour of response filtering)", "while the file of a list cannot be read, and during an overlapping rule change, the statement does not say which of the configurations accepted so far is in force: only what all of them (with and without the unreadable list) agree on is asserted"},
-	FaultKinds:  []string{"live_rule_change", "live_flag_change", "protection_pause", "clock_advance", "list_file_fault", "concurrent_rule_change", "updates_loop_delayed"},
-	ProbeNames:  []string{"blocked_by_response", "delivered_unchanged", "offender_CNAME", "offender_A", "offender_AAAA", "offender_HTTPS", "offender_not_first", "record_allowlisted", "protection_off_query", "filtering_off_query", "qname_allowlisted_query", "blocked_at_request_stage", "aaaa_disabled_query", "ipv6_hints_stripped", "negative_upstream_answer", "pause_deadline_crossed", "first_query_after_pause", "blocked_first_after_pause", "query_during_pause", "query_straddles_deadline", "op_skipped_no_pause", "fault_healed", "query_in_doubt_agree", "query_in_doubt_disagree", "doubt_all_agree_blocked", "doubt_window_closed", "par_query", "sched_steps", "sched_switches", "held_rule_change", "burst_settled", "list_toggled", "api_refused_under_fault", "blocked_after_burst"},
+	FaultKinds:  []string{"live_rule_change", "live_flag_change", "protection_pause", "clock_advance", "list_file_fault", "concurrent_rule_change", "concurrent_queries", "updates_loop_delayed"},
+	ProbeNames:  []string{"blocked_by_response", "delivered_unchanged", "offender_CNAME", "offender_A", "offender_AAAA", "offender_HTTPS", "offender_not_first", "record_allowlisted", "protection_off_query", "filtering_off_query", "qname_allowlisted_query", "blocked_at_request_stage", "aaaa_disabled_query", "ipv6_hints_stripped", "negative_upstream_answer", "pause_deadline_crossed", "first_query_after_pause", "blocked_first_after_pause", "query_during_pause", "query_straddles_deadline", "op_skipped_no_pause", "fault_healed", "query_in_doubt_agree", "query_in_doubt_disagree", "doubt_all_agree_blocked", "doubt_window_closed", "par_query", "par_first_after_pause", "par_reenable_task", "sched_steps", "sched_switches", "held_rule_change", "burst_settled", "list_toggled", "api_refused_under_fault", "blocked_after_burst"},
 }
